@@ -333,6 +333,16 @@ def prop(line, impl, model):
     op = a[1]
     if impl.startswith("!panic") or impl == "!died":
         return "implementation panicked/died: " + impl[:200]
+    if op in ("vsplit", "nsplit"):
+        # the library calls whose result the decoders index without (vsplit) / with (nsplit) a length check
+        data = unx(a[2])
+        want = data.split(b".") if op == "vsplit" else data.split(b"\n", 1)
+        got = [] if impl == "-" else [unx(t) for t in impl.split(",")]
+        if not got:
+            return "%s returned an empty slice: indexing its result panics" % ("strings.Split" if op == "vsplit" else "bytes.SplitN")
+        if got != want:
+            return "%s(%r) = %r, expected %r" % ("strings.Split" if op == "vsplit" else "bytes.SplitN", data[:100], got[:5], want[:5])
+        return None
     kind, msg = op[0], op[1:]
     if kind == "d":
         data = unx(a[2])
@@ -359,6 +369,8 @@ def key_of(line, impl, model):
     op = a[1]
     if impl.startswith("!panic") or impl == "!died":
         return op + "-panic"
+    if op in ("vsplit", "nsplit"):
+        return op + "-library-contract"
     if op[0] == "d":
         want, _ = expected_decode(op[1:], unx(a[2]), a[-1])
         return op + ("-rejects-valid" if impl == "err" else "-accepts-forbidden" if want == "err" else "-wrong-fields")
@@ -626,7 +638,49 @@ def gen_decode_inputs(ctx):
             out.append((msg, label, data))
             if msg in LEGACY and rng.random() < 0.35:
                 out.append((LEGACY[msg], label, data))
+    return out + guard_inputs()
+
+
+def guard_inputs():
+    """inputs aimed at the partial operations of the decoders (coq/Model/MessagesPanic.v): the two length /
+    nil checks the code makes, and the unchecked Split(...)[0]"""
+    out = []
+    body = b'{"offer":"o"}'
+    for d in [b"", b"1.0", b"1.0\n", b"\n", b"\n\n", b"1.0\n\n", b"1", b"1.", b"1.0" + body, b"1.0\n" + body, b"1.0\r\n" + body,
+              b"\n1.0\n" + body, b"1.0\n" + body + b"\n", b"1.0\n" + body + b"\n1.0\n" + body, b"1.0\x00", b"1.0\n\x00", b"2.0", b"1.0 "]:
+        out.append(("cpr", "guard-len", d))
+    for pat in [None, b"null", b'""', b'"x"', b"0", b"[]"]:
+        for ver in [b"1.3", b"1.2", b"1", b"", b".", b"..", b"1.", b".1", b"1..", b"\xc2\xb7", b"1\xe3\x80\x82" b"0"]:
+            ents = [("Sid", b'"s"'), ("Version", pyjson.dumps(ver.decode("utf-8")).encode())]
+            if pat is not None:
+                ents.append(("AcceptedRelayPattern", pat))
+            t = b"{" + b",".join(pyjson.dumps(k).encode() + b":" + v for k, v in ents) + b"}"
+            out.append(("ppr", "guard-nil" if ver == b"1.3" else "split-edge", t))
+            out.append(("ppr0", "guard-nil" if ver == b"1.3" else "split-edge", t))
+            if pat is None:
+                out.append(("ar", "split-edge", b'{"Sid":"s","Answer":"a","Version":%s}' % pyjson.dumps(ver.decode("utf-8")).encode()))
+    for t in [b'{"Sid":"s"}', b'{"Sid":"s","Version":null}', b'{"Version":"1"}', b"{}", b"null"]:
+        out.append(("ppr", "split-edge", t))
+        out.append(("ar", "split-edge", t))
     return out
+
+
+def gen_split_lines(ctx):
+    """the two library calls whose result is indexed: model of the call vs the call, and the contract the
+    code relies on (at least one element) as the property"""
+    rng = ctx.rng
+    lines, kinds = [], []
+    vs = list(VERSIONS) + [b"...", b"a.b.c.d", b".a", b"a.", b"\xe3\x80\x82", b"1\x00.2", b". .", b"1.3\n"]
+    for _ in range(150 if ctx.tier != "thorough" else 1500):
+        vs.append(bytes(rng.choice(b"..1230 a\n\xc3\xa9") for _ in range(rng.choice([0, 1, 2, 3, 5, 9, 30]))))
+    for v in vs:
+        lines.append("%s vsplit %s" % (AREA, X(v))); kinds.append("vsplit")
+    ds = [d for m, _, d in guard_inputs() if m == "cpr"]
+    for _ in range(150 if ctx.tier != "thorough" else 1500):
+        ds.append(bytes(rng.choice(b"\n\n1.0{}\r a\x00") for _ in range(rng.choice([0, 1, 2, 3, 5, 9, 30]))))
+    for d in ds:
+        lines.append("%s nsplit %s" % (AREA, X(d))); kinds.append("nsplit")
+    return lines, kinds
 
 
 def gen_encode_lines(ctx):
@@ -711,12 +765,15 @@ def run(ctx):
                     "yields for the bytes (harness/overlay/zz_verif/messages/main.go: generic); round-trip theorems assume parse(print v)=v",
                     "python re-statement of the protocol rules in lib/checks/c12.py (spec_*), used as the oracle on the implementation's answers"]
     ctx.assumptions += ["model = coq/Model/JsonBoundary.v + coq/Model/Messages.v (hand written); tie = correspondence on generated cases",
-                        "Go `int` is 64 bit (linux/amd64)", "error text is not compared (class only)"]
+                        "Go `int` is 64 bit (linux/amd64)", "error text is not compared (class only)",
+                        "no-panic: coq/Model/MessagesPanic.v makes every index / dereference of the decoders an explicit step (the d* ops run "
+                        "these refined decoders); strings.Split and bytes.SplitN are executable models compared with the real calls (ops vsplit, nsplit)"]
     inputs = gen_decode_inputs(ctx)
     lines, kinds = decode_lines(exe, inputs)
     ctx.correspond(exe, lines, kinds, label="messages-decode", prop=prop, key_of=key_of)
     e_lines, e_kinds = gen_encode_lines(ctx)
-    ctx.correspond(exe, e_lines, e_kinds, label="messages-encode-roundtrip", prop=prop, key_of=key_of)
+    s_lines, s_kinds = gen_split_lines(ctx)
+    ctx.correspond(exe, e_lines + s_lines, e_kinds + s_kinds, label="messages-encode-roundtrip", prop=prop, key_of=key_of)
 
 
 def replay(ctx, doc):
